@@ -2,6 +2,7 @@ package main
 
 import (
 	"encoding/json"
+	osexec "os/exec"
 	"flag"
 	"fmt"
 	"os"
@@ -60,7 +61,11 @@ func main() {
 	workers := flag.Int("j", 16, "parallel solver processes")
 	verbose := flag.Bool("v", false, "verbose")
 	noReplay := flag.Bool("noreplay", false, "do not try to replay counterexamples")
+	replayFile := flag.String("replayfile", "", "re-run the replay stored in this violation file")
 	flag.Parse()
+	if *replayFile != "" {
+		os.Exit(rerunReplay(*replayFile))
+	}
 	if *prop == "" && *dumpFn == "" && !*list {
 		fmt.Fprintln(os.Stderr, "usage: ruxvc -prop Cxx [-tier quick|thorough]")
 		os.Exit(2)
@@ -475,3 +480,37 @@ func writeEvidence(path, prop, tier string, seed, nObl, nDis int, samples []any,
 	b, _ := json.MarshalIndent(ev, "", " ")
 	os.WriteFile(path, b, 0o644)
 }
+
+// rerunReplay re-executes the Go test stored in a violation file against the current tree.
+func rerunReplay(file string) int {
+	b, err := os.ReadFile(file)
+	if err != nil {
+		fmt.Println("cannot read", file, err)
+		return 2
+	}
+	var f Failure
+	if err := json.Unmarshal(b, &f); err != nil {
+		fmt.Println("cannot parse", file, err)
+		return 2
+	}
+	fmt.Printf("obligation: %s\nclause: %s\nstatus: %s\n", f.Obligation, f.Clause, f.Status)
+	if f.Replay == nil || f.Replay.Command == "" {
+		fmt.Println("no executable replay is stored for this obligation (no-failing-input-found); solver outputs and the SMT query are in the file")
+		return 1
+	}
+	if f.Replay.TestSource != "" {
+		os.MkdirAll(filepath.Dir(f.Replay.TestFile), 0o755)
+		os.WriteFile(f.Replay.TestFile, []byte(f.Replay.TestSource), 0o644)
+	}
+	cmd := execCommand("sh", "-c", f.Replay.Command)
+	out, _ := cmd.CombinedOutput()
+	fmt.Println(string(out))
+	if strings.Contains(string(out), "REPLAY panicked=true") && f.Class == "safe" || strings.Contains(string(out), "REPLAY clause=false") {
+		fmt.Println("reproduced: the real code violates the obligation on this input")
+		return 1
+	}
+	fmt.Println("not reproduced on the current tree")
+	return 0
+}
+
+var execCommand = osexec.Command
